@@ -210,3 +210,58 @@ Theorem C16_is_pipeline_generator :
     Gengo.Model.Pipeline.go_ignore (Gengo.Model.Pipeline.gen_run E g p) = false.
 Proof. exact Gengo.Proofs.GeneratorsPipe.runtimedoc_gen_run. Qed.
 Print Assumptions C16_is_pipeline_generator.
+
+(* ---- one system, docs (Model/Tables.v, Props/Tables.v, notes/Tables.md): the doc lines this file's model takes
+   "as Package.Doc returns them" are what C12's model of Package.Doc (Model/Comments.v) returns on a layout, and
+   "enabled" is C06's rule on what C12 extracts.  [T.package_from_source evs G docs tpos fpos p]: the package p with
+   every type's / field's doc lines read off the layout [evs] at the position of its name ([tpos] / [fpos]) and
+   t_enabled := IsGeneratorEnabled(runtimedoc, Context.Doc(type)) computed from the source. ---- *)
+Require Gengo.Model.Dispatch Gengo.Model.Comments Gengo.Spec.Comments Gengo.Model.Tables Gengo.Props.Tables.
+From Coq Require ZArith.
+Module T := Gengo.Model.Tables.
+Module Cmt := Gengo.Model.Comments.
+Module CSp := Gengo.Spec.Comments.
+
+(* RuntimeDoc() of a covered type returns exactly doc_of name (non-tag lines of the stand-alone comment group ending
+   on the line above the declaration) — all layouts satisfying C12's well-formedness, all receivers *)
+Theorem C16_docs_from_source :
+  forall evs G docs tpos fpos files leads p t d v,
+    CSp.wf evs leads -> NoDup (map t_name p) -> In t p ->
+    In d (CSp.decls_of evs) -> tpos (t_name t) = (Cmt.p_file (Cmt.d_pos d), Cmt.p_line (Cmt.d_pos d)) ->
+    covered (T.ty_from_source evs G docs tpos fpos t) = true ->
+    has_embed_ref (T.package_from_source evs G docs tpos fpos p) (t_name t) = false ->
+    run files (gen true true (T.package_from_source evs G docs tpos fpos p)) v (t_name t) []
+    = Ok (Some (doc_of (t_name t) (T.source_doc leads (Cmt.p_file (Cmt.d_pos d)) (Cmt.p_line (Cmt.d_pos d))))).
+Proof. exact Gengo.Props.Tables.Tables_docs_from_source. Qed.
+Print Assumptions C16_docs_from_source.
+
+(* RuntimeDoc(f) of a listed field: the comment group above the field's declaration; side condition: no name on a
+   continuation line (C12's known finding: in `A,` newline `B int` the field B gets no documentation) *)
+Theorem C16_field_docs_from_source :
+  forall evs G docs tpos fpos files leads p t fs f d l v rest,
+    CSp.wf evs leads -> CSp.name_on_continuation_line evs = false ->
+    NoDup (map t_name p) -> In t p -> covered (T.ty_from_source evs G docs tpos fpos t) = true ->
+    t_kind t = TStruct fs -> NoDup (map f_name (filter listed fs)) -> In f fs -> listed f = true ->
+    In d (CSp.decls_of evs) -> In l (Cmt.d_names d) -> fpos (t_name t) (f_name f) = (Cmt.p_file (Cmt.d_pos d), l) ->
+    run files (gen true true (T.package_from_source evs G docs tpos fpos p)) v (t_name t) (f_name f :: rest)
+    = Ok (Some (doc_of (f_name f) (T.source_doc leads (Cmt.p_file (Cmt.d_pos d)) (Cmt.p_line (Cmt.d_pos d))))).
+Proof. exact Gengo.Props.Tables.Tables_field_docs_from_source. Qed.
+Print Assumptions C16_field_docs_from_source.
+
+(* "covered" in source terms: the runtimedoc rule on the comment lines, exported, not an interface, a struct only
+   with an exported field *)
+Theorem C16_covered_from_source :
+  forall evs G docs tpos fpos leads t d,
+    NoDup (Dispatch.keys G) -> CSp.wf evs leads -> In d (CSp.decls_of evs) ->
+    tpos (t_name t) = (Cmt.p_file (Cmt.d_pos d), Cmt.p_line (Cmt.d_pos d)) ->
+    covered (T.ty_from_source evs G docs tpos fpos t)
+    = T.source_rule (bs "runtimedoc") G (map Cmt.split_nl docs)
+                    (CSp.doc_lines_above leads (Cmt.p_file (Cmt.d_pos d)) (Cmt.p_line (Cmt.d_pos d)))
+      && t_exported t
+      && match t_kind t with
+         | TInterface => false
+         | TStruct fs => has_expose fs
+         | TOther => true
+         end.
+Proof. exact Gengo.Props.Tables.Tables_covered_from_source. Qed.
+Print Assumptions C16_covered_from_source.
